@@ -1,6 +1,8 @@
 //! Harness CLI.  Executes, observes, projects and records; all judging is done by TLC on the traces
 //! (the fast path only compares records with what TLC printed).
 mod cfg;
+mod conc;
+mod concrun;
 mod exec;
 mod handles;
 mod joinrun;
@@ -35,7 +37,9 @@ fn args_map() -> (String, HashMap<String, String>) {
 }
 
 fn main() {
-    std::panic::set_hook(Box::new(|_| {}));
+    if std::env::var("VERIF_DEBUG").is_err() {
+        std::panic::set_hook(Box::new(|_| {}));
+    }
     let (cmd, a) = args_map();
     let get = |k: &str, d: &str| a.get(k).cloned().unwrap_or_else(|| d.to_string());
     let code = match cmd.as_str() {
@@ -85,6 +89,19 @@ fn main() {
             let r = tree2::run(&PathBuf::from(get("lts", "")), &get("cfg1", "mem"), &get("cfg2", "mem"), &get("names", "ascii"), get("b", "1").parse().unwrap(),
                                get("frac", "0.01").parse().unwrap(), get("seed", "1").parse().unwrap(), &PathBuf::from(get("out", "work/tree2")));
             println!("{}", r);
+            0
+        }
+        #[cfg(feature = "hooks")]
+        "conc" => {
+            let r = concrun::run(&get("prop", "C16"), &get("tier", "quick"), get("seed", "1").parse().unwrap(), &PathBuf::from(get("out", "work/conc")),
+                                 get("threads", "8").parse().unwrap());
+            println!("{}", r);
+            0
+        }
+        #[cfg(feature = "hooks")]
+        "conc1" => {
+            let spec: serde_json::Value = serde_json::from_str(&std::fs::read_to_string(get("spec", "")).expect("spec file")).expect("spec json");
+            println!("{}", concrun::run_one(&spec, &PathBuf::from(get("out", "work/conc1"))));
             0
         }
         "join" => {
